@@ -106,6 +106,12 @@ def gen_case(rng, stream: str) -> dict:
         wsh = True
     else:
         wsh = False
+    if stream == "converge" and prior and not wsh and rng.random() < 0.12:
+        for p in list(prior):
+            if prior[p][0] in cached_pool and CONTENT_POOL[prior[p][0]] != "":
+                prior[p] = [prior[p][0], "xsymshare"]
+        case["relink"] = True
+        case["types"] = [rng.choice(["symlink", "symlink", "hardlink", "copy"])]
     if stream == "converge":
         case["force"] = True
         case["prompt"] = "none"
@@ -345,7 +351,7 @@ def setup(ctx, case):
     prior = case["prior"]
     need = set(case["cache"])
     if prior:
-        need |= {cid for cid, kind in prior.values() if kind in ("hardlink", "symlink")}
+        need |= {cid for cid, kind in prior.values() if kind in ("hardlink", "symlink", "xsymshare")}
     for cid in sorted(need):
         p = impl.plant(cache, md5hex(contents[cid]), contents[cid])
         clock.stamp(p)
@@ -376,6 +382,15 @@ def setup(ctx, case):
                     wsfirst[cid] = p
                 else:
                     os.link(first, p)
+            elif kind == "xsymshare":
+                # cache relocation: the workspace was checked out with symlinks from an OLD cache and our cache was
+                # filled from it with hard links - the link resolves to ANOTHER hard link of our object (same
+                # inode), but its destination is not our cache path
+                other = os.path.join(cache2, md5hex(contents[cid])[:2], md5hex(contents[cid])[2:])
+                os.makedirs(os.path.dirname(other), exist_ok=True)
+                if not os.path.lexists(other):
+                    os.link(src, other)
+                os.symlink(other, p)
             elif kind in ("xsym", "xhard"):
                 other = impl.plant(cache2, md5hex(contents[cid]), contents[cid])
                 clock.stamp(other)
